@@ -325,7 +325,7 @@ func addInline(xVal, yVal uint64, xNeg, yNeg bool) (zVal uint64, zNeg, ok bool) 
 //gcassert:inline
 func mulInline(xVal, yVal uint64, xNeg, yNeg bool) (zVal uint64, zNeg, ok bool) {
 	hi, lo := bits.Mul64(xVal, yVal)
-	neg := xNeg != yNeg
+	neg := xNeg != yNeg && lo != 0 // zero is never negative
 	overflow := hi != 0
 	return lo, neg, !overflow
 }
@@ -336,7 +336,7 @@ func quoInline(xVal, yVal uint64, xNeg, yNeg bool) (quoVal uint64, quoNeg, ok bo
 		return 0, false, false
 	}
 	quo := xVal / yVal
-	neg := xNeg != yNeg
+	neg := xNeg != yNeg && quo != 0 // zero is never negative
 	return quo, neg, true
 }
 
@@ -346,7 +346,7 @@ func remInline(xVal, yVal uint64, xNeg, yNeg bool) (remVal uint64, remNeg, ok bo
 		return 0, false, false
 	}
 	rem := xVal % yVal
-	return rem, xNeg, true
+	return rem, xNeg && rem != 0, true // zero is never negative
 }
 
 ///////////////////////////////////////////////////////////////////////////////
@@ -710,7 +710,8 @@ func (z *BigInt) MulRange(x, y int64) *BigInt {
 func (z *BigInt) Neg(x *BigInt) *BigInt {
 	if x.isInline() {
 		z._inline = x._inline
-		if x._inner == negSentinel {
+		if x._inner == negSentinel || x._inline == [inlineWords]big.Word{} {
+			// The negation of a negative value or of zero is not negative.
 			z._inner = nil
 		} else {
 			z._inner = negSentinel
